@@ -32,7 +32,7 @@ def run(ctx):
               expect_violation='NoSharing')
     public = sorted(n for n in dir(ptn) if not n.startswith('_'))
     ctx.notes['public_names'] = len(public)
-    seeds = [ctx.replay['replay']['seed']] if ctx.replay is not None else [int(x) for x in rng.integers(1 << 30, size=ctx.pick(700, 6000))]
+    seeds = [ctx.replay['replay']['seed']] if ctx.replay is not None else [int(x) for x in rng.integers(1 << 30, size=ctx.pick(700, 16000))]
     traces = pmap(_hist, [(s, ctx.quick) for s in seeds])
     for s, t19 in zip(seeds, traces):
         ctx.count(s, nontrivial=any(r.get('kind') == 'fresh' and r.get('operands') for r in t19))
